@@ -107,8 +107,15 @@ func runCaseX(c *hcCase, invs []invFn, observe func(e *executor, r *stepResult, 
 			}()
 			if v != nil {
 				// findings of the "after a failed request" class heal with the next
-				// successful reply: count them and keep exploring this history
-				if vfkit.IsKnown(v) && strings.HasSuffix(v.Signature, "after-failed-request") {
+				// successful reply, and the lock held during a configuration push
+				// affects no state: count them and keep exploring this history
+				if vfkit.IsKnown(v) && strings.HasPrefix(v.Signature, "push-while-holding-pipeline-lock") {
+					vfkit.For(v.Property).KnownHit(v)
+					ri.label("known:" + v.Signature)
+					v = nil
+					continue // (the other invariants of this step still apply)
+				}
+				if vfkit.IsKnown(v) && strings.Contains(v.Signature, "after-failed-request") {
 					vfkit.For(v.Property).KnownHit(v)
 					ri.label("known:" + v.Signature)
 					v = nil
